@@ -217,6 +217,21 @@ def _one(idx):
                 if abs(pot.force(x) - want) > 1e-9 * max(1.0, abs(want)):
                     bad.append(("derivative-from-other-range", "r=%s: energy from range #%d but force=%r (that range gives %r)" % (x, rid, pot.force(x), want), "potable"))
                     break
+            if not bad and idx % 2 == 0:
+                # the same listing as embedding and as density function of an EAM model: what a range marker means (and that a
+                # definition without a leading marker acts above 0 only) does not depend on the section
+                lst = text.split("A-B : ", 1)[1].split("\n", 1)[0]
+                etext = ("[Tabulation]\ntarget : setfl\nnr : 5\ncutoff : 4.0\nnrho : 5\ncutoff_rho : 4.0\n\n[Pair]\nAl-Al : as.zero\n\n"
+                         "[EAM-Embed]\nAl : %s\nCu : as.zero\n\n[EAM-Density]\nCu : %s\nAl : as.zero\n" % (lst, lst))
+                etab = Configuration().read(io.StringIO(etext))
+                byel = {e.species: e for e in etab.eam_potentials}
+                for what, fn in (("[EAM-Embed]", byel["Al"].embeddingFunction), ("[EAM-Density]", byel["Cu"].electronDensityFunction)):
+                    sel4, nq = check_object(case, fn, "potable", "analytic", bad, rnd)
+                    out["queries"] += nq
+                    if bad:
+                        bad[-1] = (bad[-1][0], "in %s: %s" % (what, bad[-1][1]), bad[-1][2])
+                        text = etext
+                        break
             if not bad:       # the same listing with custom formulas: no range offers a derivative
                 text = render_ini(case, custom=True, twin=(idx + 1) % 3)
                 pot = [p for p in Configuration().read(io.StringIO(text)).potentials if (p.speciesA, p.speciesB) == ("A", "B")][0]
